@@ -139,14 +139,20 @@ func (c *Config) Proxy(closing chan bool, cc io.ReadWriter, url *url.URL) error 
 		defer halt()
 		if err := cToS.relayFrames(stop, readersDone); err != nil {
 			log.Errorf("relaying frame from client to %v: %v", url, err)
+			return
 		}
+		// The client has ended in good order: what it sent is still delivered to the server.
+		cToS.drain(stop, drainTimeout)
 	}()
 	go func() { // Forwards frames from server to client.
 		defer wg.Done()
 		defer halt()
 		if err := sToC.relayFrames(stop, readersDone); err != nil {
 			log.Errorf("relaying frame from %v to client: %v", url, err)
+			return
 		}
+		// The server has ended in good order: what it sent is still delivered to the client.
+		sToC.drain(stop, drainTimeout)
 	}()
 	wg.Wait()
 	close(readersDone)
